@@ -201,6 +201,41 @@ CLAIMS = {
         note=COMMON_NOTE + "Partial by nature: wall-clock bounds, SIGKILL and reaping are runtime; the model cannot exhibit a hung join.",
         technique="Lean 4 proof (state machine of the poll loop) + real-process correspondence with real and virtual clocks",
     ),
+    "C07": dict(
+        text="Rule-by-rule model of get_instruction/_match_operands/_check_*_operands/_is_*_type and the mnemonic fall-backs; "
+             "theorems for all parser-domain operands, schema-valid entries and databases: check_iff_kind (the operand test is exactly "
+             "the declarative KindAgree relation), match_iff_agree, lookup_sound, lookup_complete_first, lookup_none_iff, "
+             "lookup_case_insensitive, fallback_spec/unique, self_match, never_unknown; kernel-decided tables over the 139 distinct "
+             "operand signatures of all shipped models (shipped_*_sigs, shipped_*_live), regenerated per run. Tie: index of the entry "
+             "returned by the real get_instruction on synthetic models x matching/near-miss instructions of both ISAs, and for every "
+             "entry of every shipped model the instruction synthesised from its own pattern incl. the full costing path.",
+        design="5/C07 + notes/C07.md",
+        note=COMMON_NOTE + "assign_src_dst is not modelled (semantic operand lists come from the implementation). Known findings: 84 m1/v2 entries "
+             "with index/scale null and 104 five-operand icl forms can never match.",
+        technique="Lean 4 proof (decision logic vs declarative kind relation, first-match lemmas) + differential correspondence + exhaustive self-match sweep",
+    ),
+    "C08": dict(
+        text="Model of assign_tp_lt's composition path; theorems for all models and instructions: compose_spec (every field is "
+             "Spec.Composed of the named ingredients), compose_feasible (the composed pressure is Feasible 0 with the multipliers as "
+             "mult: links to C01), unknown_spec, own_entry_first, composed_when, per_instruction, row_choice_load/store. Tie: "
+             "synthetic models x instructions with a memory operand in every position and role, each analysed twice in a row and "
+             "after a decoy; curated real vocabulary on shipped models; oracle Spec.Composed recomputed from the raw YAML tables.",
+        design="5/C08 + notes/C08.md",
+        note=COMMON_NOTE + "Known findings: AArch64 composition ignores the register type when picking the load/store row; the loader drops "
+             "pre/post_indexed of table rows.",
+        technique="Lean 4 proof (decision logic of the composition) + differential correspondence with history checks",
+    ),
+    "C10": dict(
+        text="Model of the language the AArch64 grammar accepts; theorems for all files and all lines of the AST domain: "
+             "parseFile_lines, classify_exclusive, a64_roundtrip (every operand kind: scalar/alias/vector/SVE/predicate registers, "
+             "lists and ranges expanded, integer/hex/float/shifted immediates, conditions, identifiers, prefetch, memory with offset / "
+             "scaled index / pre- and post-index; up to 5 operands, all layouts, trailing comment), a64_roundtrip_checked (executable "
+             "domain test evaluated on every generated AST), range_expand, scale_pow2, imm_*_roundtrip. Tie/oracle: rendered random "
+             "ASTs through ParserAArch64 vs the model and vs the AST; Lean renderer vs Python renderer.",
+        design="5/C10 + notes/C10.md",
+        note=COMMON_NOTE + "Modelled not verified: pyparsing. ASCII only; label names starting with a shift-operator word or pld/pst are outside the domain.",
+        technique="Lean 4 proof (parser round trip by induction over tokens/operands) + differential correspondence",
+    ),
 }
 
 REASON_TODO = "no theorem + checked tie built yet in this round; planned per DESIGN.md section 5 (not claimed until both exist)"
